@@ -75,6 +75,7 @@ pub fn flow(t: usize, vals: &[V], rich: Rich) -> Vec<Letter> {
     al.push(Letter::many(vec![u(Some(7), "CAL", "GASNATURAL", last), a(Some(7), first)]));
     al.push(Letter::many(vec![u(Some(8), "ACS", "GASNATURAL", mid), u(Some(8), "CAL", "GASNATURAL", last), o(8, "ACS", mid), o(8, "CAL", first), a(Some(8), mid)]));
     al.push(Letter::one(d("ACS", last)));
+    al.push(Letter::many(vec![d("CAL", mid), d("REF", first)]));
     // a cogeneration system with its own auxiliaries; metadata that the LIBRARY must not act upon
     al.push(Letter::many(vec![p(Some(5), "EL_COGEN", last), u(Some(5), "COGEN", "GASNATURAL", &scale(last, 2, 1)), a(Some(5), first)]));
     al.push(Letter::many(vec![Line::M { key: "CTE_KEXP", val: "1.0" }, Line::M { key: "CTE_AREAREF", val: "7.5" }, Line::M { key: "CTE_LOCALIZACION", val: "CANARIAS" }]));
